@@ -87,6 +87,26 @@ func oneLogin(r *core.Run) {
 	}
 	account := string(c.Blob(c.Size(maxAcc, 0, maxAcc), "print"))
 	secret := string(c.Blob(c.Size(32, 0, 1, 32), "print"))
+	// blanks, per-cent signs and other octets a formatter or a trimmer reacts to, at the ends of the credentials
+	edge := func(s string) string {
+		if s == "" {
+			return s
+		}
+		b := []byte(s)
+		x := []byte{' ', '%', '\t', '0', '\\', 0x7f}[c.Intn(6)]
+		switch c.Pick(6, 1, 1, 1) {
+		case 1:
+			b[len(b)-1] = x
+		case 2:
+			b[0] = x
+		case 3:
+			for i := range b {
+				b[i] = x
+			}
+		}
+		return string(b)
+	}
+	account, secret = edge(account), edge(secret)
 	// clock: somewhere in the year, any zone
 	zone := c.Intn(27) - 12
 	old := time.Local
@@ -230,6 +250,23 @@ func oneLogin(r *core.Run) {
 	if how != "" || len(frames) != 1 {
 		r.Event("link trouble: %s", how)
 		return
+	}
+	// ---------------- in a third of the runs a proxy sits in between: it decodes the login, gives it a sequence
+	// number of its own and encodes it again; "transmitted" includes that
+	if c.Prob(1, 3) {
+		r.Probe("login_through_a_relay")
+		hop := ctor[reqSite]()
+		if p := r.Call(reqSite+".IDecode", func() { err = hop.IDecode(frames[0]) }); p != nil || err != nil {
+			r.Fail("C15", "decode", reqSite, "relay", "the relay cannot decode the login: %v", err)
+			return
+		}
+		hop.SetSequenceID(seq ^ 0x01010101)
+		var fb []byte
+		if p := r.Call(reqSite+".IEncode", func() { fb, err = hop.IEncode() }); p != nil || err != nil {
+			r.Fail("C15", "encode", reqSite, "relay/"+cls, "the relay cannot forward a login it decoded (digest class %s): %v", cls, err)
+			return
+		}
+		frames[0] = fb
 	}
 	got := ctor[reqSite]()
 	if p := r.Call(reqSite+".IDecode", func() { err = got.IDecode(frames[0]) }); p != nil || err != nil {
